@@ -169,6 +169,10 @@ class STRtreeModel:
             return mk_bool(pred(q, g.term))
         arr = np.index_set(geoms.shape[0], keep, 'hits')
         arr.query = (self, geometry, predicate)
+        reg = getattr(c, 'strtree_results', None)
+        if reg is None:
+            reg = c.strtree_results = []
+        reg.append(arr)
         return arr
 
     def nearest(self, *a, **k):
@@ -220,14 +224,143 @@ def shape(obj):
     raise PyRaise(ExcObj(ValueError, ('not a geometry',)))
 
 
+# -- abstract results of set operations (SH-INTERSECTION) -----------------------------------------------------------------------------
+# polygon.intersection(line) is a geometry term g = inter(polygon, line) of one of the classes below (kind(g)); it is empty iff
+# not intersects(line, polygon); a MultiLineString / GeometryCollection has parts part(g, j), j < nparts(g), none of them a collection
+# and none empty; a non-empty LineString has >= 2 coordinates coord(g, j), each a position usable as Point(...).
+KINDS = ('LineString', 'MultiLineString', 'GeometryCollection', 'Point', 'MultiPoint', 'Polygon', 'MultiPolygon')
+COLLECTIONS = ('MultiLineString', 'GeometryCollection', 'MultiPoint', 'MultiPolygon')
+
+
+class CoordTok:
+    """one entry of geometry.coords: a position, as a term of sort Geom (the point at that position)"""
+    _pyvc_model_class = True
+
+    def __init__(self, term, owner=None, where=None):
+        self.term, self.owner, self.where = term, owner, where
+
+
+class AbsGeom:
+    _pyvc_model_class = True
+
+    def __init__(self, term, part_of=None, fixed_kind=None):
+        self.z = term
+        self.part_of = part_of
+        self.fixed_kind = fixed_kind
+        c = core.ctx()
+        k = self._kind()
+        if fixed_kind is None:
+            c.assume(z3.And(k >= 0, k < len(KINDS)))
+        if part_of is not None:
+            c.assume(z3.And(*[k != KINDS.index(n) for n in COLLECTIONS]))
+            c.assume(z3.Not(_fn('geom_empty', GeomSort, z3.BoolSort())(term)))
+
+    def _kind(self):
+        if self.fixed_kind is not None:
+            return z3.IntVal(KINDS.index(self.fixed_kind))
+        return _fn('geom_kind', GeomSort, z3.IntSort())(self.z)
+
+    def _geom_kind(self, name):
+        if name == 'BaseGeometry':
+            return True
+        if name not in KINDS:
+            return False
+        return mk_bool(self._kind() == KINDS.index(name))
+
+    @property
+    def is_empty(self):
+        return mk_bool(_fn('geom_empty', GeomSort, z3.BoolSort())(self.z))
+
+    @property
+    def geoms(self):
+        from .seq import SymSeq
+        used('SH-INTERSECTION')
+        c = core.ctx()
+        if c.branch(z3.Not(z3.Or(*[self._kind() == KINDS.index(n) for n in COLLECTIONS]))):
+            raise PyRaise(ExcObj(AttributeError, ("'geoms' of a single-part geometry",)))
+        n = _fn('geom_nparts', GeomSort, z3.IntSort())(self.z)
+        c.assume(n >= 0)
+        part = _fn('geom_part', GeomSort, z3.IntSort(), GeomSort)
+        seq = SymSeq(mk_int(n), lambda j: AbsGeom(part(self.z, zint(j)), part_of=(self, j)), 'list')
+        seq.parts_of = self
+        return seq
+
+    @property
+    def coords(self):
+        from .seq import SymSeq
+        used('SH-INTERSECTION')
+        c = core.ctx()
+        if c.branch(z3.Not(z3.Or(self._kind() == KINDS.index('LineString'), self._kind() == KINDS.index('Point')))):
+            raise Unsupported('coords of a multi-part geometry / polygon')
+        n = _fn('geom_ncoords', GeomSort, z3.IntSort())(self.z)
+        empty = _fn('geom_empty', GeomSort, z3.BoolSort())(self.z)
+        c.assume(z3.If(empty, n == 0, z3.If(self._kind() == KINDS.index('LineString'), n >= 2, n == 1)))
+        coord = _fn('geom_coord', GeomSort, z3.IntSort(), GeomSort)
+        seq = SymSeq(mk_int(n), lambda j: CoordTok(coord(self.z, zint(j)), self, j), 'list')
+        seq.coords_of = self
+        return seq
+
+    def _is(self, other):
+        return False if other is None else self is other
+
+    def _eq(self, other):
+        if isinstance(other, AbsGeom):
+            return mk_bool(self.z == other.z)
+        return False
+
+    def __repr__(self):
+        return f'<geometry {self.z}>'
+
+
+def intersection_of(poly_term, other):
+    """SH-INTERSECTION: polygon.intersection(other)"""
+    used('SH-INTERSECTION')
+    c = core.ctx()
+    q = geom_term(other) if not hasattr(other, 'z') else other.z
+    g = AbsGeom(_fn('geom_inter', GeomSort, GeomSort, GeomSort)(poly_term, q))
+    pred = _fn('pred_intersects', GeomSort, GeomSort, z3.BoolSort())
+    c.assume(_fn('geom_empty', GeomSort, z3.BoolSort())(g.z) == z3.Not(pred(q, poly_term)))
+    c.event('intersection', poly_term, q, g)
+    return g
+
+
+def _geom_class(name, construct=None):
+    def _isinstance(x):
+        f = getattr(x, '_geom_kind', None)
+        return f(name) if f is not None else False
+    ns = {'_isinstance': staticmethod(_isinstance), '_pyvc_model_class': True, '__doc__': f'shapely.{name}'}
+    if construct is not None:
+        ns['__new__'] = staticmethod(construct)
+    return type(name, (), ns)
+
+
+def _new_point(cls, *a, **k):
+    if len(a) == 1 and isinstance(a[0], CoordTok):
+        g = AbsGeom(a[0].term, fixed_kind='Point')
+        g.at_coord = a[0]
+        return g
+    raise Unsupported('shapely.Point(...) of something that is not an entry of geometry.coords')
+
+
+def _new_linestring(cls, *a, **k):
+    c = core.ctx()
+    c.event('LineString', a)
+    g = AbsGeom(z3.FreshConst(GeomSort, 'newline'), fixed_kind='LineString')
+    g.built_from = a
+    return g
+
+
 class _GeometryMod:
     _pyvc_model_class = True
     box = staticmethod(box)
     shape = staticmethod(shape)
-    Polygon = type('Polygon', (), {})
-    MultiPolygon = type('MultiPolygon', (), {})
-    Point = type('Point', (), {})
-    LineString = type('LineString', (), {})
+    Polygon = _geom_class('Polygon')
+    MultiPolygon = _geom_class('MultiPolygon')
+    Point = _geom_class('Point', _new_point)
+    LineString = _geom_class('LineString', _new_linestring)
+    MultiLineString = _geom_class('MultiLineString')
+    GeometryCollection = _geom_class('GeometryCollection')
+    MultiPoint = _geom_class('MultiPoint')
 
     class base:
         BaseGeometry = type('BaseGeometry', (), {})
@@ -249,6 +382,10 @@ class ShapelyModule:
     STRtree = STRtreeModel
     Polygon = _GeometryMod.Polygon
     Point = _GeometryMod.Point
+    LineString = _GeometryMod.LineString
+    MultiLineString = _GeometryMod.MultiLineString
+    GeometryCollection = _GeometryMod.GeometryCollection
+    MultiPoint = _GeometryMod.MultiPoint
     MultiPolygon = staticmethod(__import__('pyvc.lib.exportlibs', fromlist=['x']).MultiPolygon)
     to_wkt = staticmethod(__import__('pyvc.lib.exportlibs', fromlist=['x']).to_wkt)
     to_wkb = staticmethod(__import__('pyvc.lib.exportlibs', fromlist=['x']).to_wkb)
